@@ -79,3 +79,64 @@ def tag_int_concrete(n, legacy):
         if lo <= n <= hi:
             return tag.encode('ascii') + int(n).to_bytes(width, 'big', signed=signed)
     return None
+
+
+# ---------------------------------------------------------------- byte-string helpers for specifications
+def blen(st, rope):
+    """Length of a byte string (python int or z3 term)."""
+    if isinstance(rope, (bytes, bytearray)):
+        return len(rope)
+    return mk_int(st.rope_len_term(rope))
+
+
+def peek(st, rope, k):
+    """The first k octets as atoms, or None when the string is shorter.
+    May branch (specification-side evaluation is explored per decision)."""
+    if isinstance(rope, (bytes, bytearray)):
+        return list(rope[:k]) if len(rope) >= k else None
+    n = st.rope_len_term(rope)
+    if not st.branch(n >= k, 'spec:peek%d' % k):
+        return None
+    atoms, _ = st.take_bytes(st.expand(st.to_rope(rope).segs), k, 'spec:peek')
+    return atoms
+
+
+def byte_at(st, rope, pos):
+    """Octet at position pos (0 <= pos < len established by the caller)."""
+    if isinstance(rope, (bytes, bytearray)) and isinstance(pos, int):
+        return rope[pos]
+    v = st.rope_index(rope, pos, 'spec:byte_at')
+    return v
+
+
+def sub(st, rope, lo, hi):
+    if isinstance(rope, (bytes, bytearray)) and isinstance(lo, int) and isinstance(hi, int):
+        return rope[lo:hi]
+    return st.rope_slice(rope, lo, hi, 'spec:sub')
+
+
+def atoms_eq(atoms, literal):
+    from pyvc.dsl import conj, eq
+    return conj(*[eq(a, b) for a, b in zip(atoms, literal)])
+
+
+def uint(atoms):
+    from pyvc.sym import State
+    return State.unpack_uint(list(atoms))
+
+
+# ---------------------------------------------------------------- general frame format (AMQP 0-9-1 section 4.2.3)
+FRAME_END = 0xCE
+TYPE_METHOD, TYPE_HEADER, TYPE_BODY, TYPE_HEARTBEAT = 1, 2, 3, 8
+
+
+def frame(st, ftype, channel, payload):
+    """type octet, channel (2 octets), payload size (4 octets), payload, frame-end."""
+    return cat(st, be(st, 1, ftype), be(st, 2, channel), be(st, 4, blen(st, payload)), payload, bytes([FRAME_END]))
+
+
+HEARTBEAT_FRAME = bytes([TYPE_HEARTBEAT, 0, 0, 0, 0, 0, 0, FRAME_END])
+
+
+def protocol_header(st, major, minor, revision):
+    return cat(st, b'AMQP', b'\x00', be(st, 1, major), be(st, 1, minor), be(st, 1, revision))
